@@ -296,3 +296,31 @@ def implied(fl, row, pred, limit=10):
     if len(vals) == 1:
         return vals.pop()
     return None
+
+
+def satisfiable(fl, row, wanted, limit=10):
+    """can the atoms selected by the predicates in `wanted` [(pred, value), ..] take those values together on this path (some assignment of
+    the branch atoms satisfies every test of the path as taken *and* the wanted values)?  True / False; None when an atom does not occur
+    on the path or the table would be too large.  Used for statements of the form "this path is only taken when not (A and B)"."""
+    import itertools
+    tests = []
+    for t, lab in row.tests:
+        tpos = [i for i, x in enumerate(row.nodes) if x is t]
+        tests.append((path_expand(fl, row.nodes, t.expr, tpos[0]) if tpos else fl.expand(t.expr, t), lab))
+    atoms = {}
+    for e, _ in tests:
+        _atoms_of(e, atoms)
+    keys = sorted(atoms)
+    targets = []
+    for pred, val in wanted:
+        hit = [k for k in keys if pred(k, atoms[k])]
+        if not hit:
+            return None
+        targets.append((hit[0], val))
+    if len(keys) > limit:
+        return None
+    for bits in itertools.product((False, True), repeat=len(keys)):
+        env = dict(zip(keys, bits))
+        if all(bool(_eval(e, env)) == bool(lab) for e, lab in tests) and all(env[k] == v for k, v in targets):
+            return True
+    return False
